@@ -9,6 +9,7 @@ import (
 	"regexp"
 	"sort"
 	"strings"
+	"sync/atomic"
 	"testing"
 	"time"
 
@@ -46,7 +47,7 @@ import (
 
 // Case is one codec case.
 type Case struct {
-	// Mode: roundtrip | decode | e2e-frame | e2e-status
+	// Mode: roundtrip | decode | e2e-frame | e2e-status | e2e-client
 	Mode     string   `json:"mode"`
 	Method   string   `json:"method,omitempty"` // full name of a registered method
 	Response bool     `json:"response,omitempty"`
@@ -59,6 +60,8 @@ type Case struct {
 	Frame    []byte   `json:"frame,omitempty"` // decode / e2e-frame: bytes offered to the decoder
 	Mutation string   `json:"mutation,omitempty"`
 	Rich     bool     `json:"rich,omitempty"` // payload has a populated non-scalar field
+	// e2e-client: the call type whose request a hostile server answers with Frame
+	ClientKind string `json:"client_kind,omitempty"`
 	// e2e-status: the handler outcomes of consecutive calls to one node through one manager
 	// (code 0 = the handler succeeds); empty = the single outcome (Code, Text)
 	Seq []StatusStep `json:"seq,omitempty"`
@@ -266,6 +269,13 @@ func genRoundtripParts(t *rapid.T, c *Case) {
 	}
 	c.Response = rapid.Bool().Draw(t, "response")
 	c.MsgID = rapid.OneOf(rapid.Uint64(), rapid.Uint64Range(0, 3)).Draw(t, "msgid")
+	if c.Mode == "e2e-client" {
+		// a frame from a server; mostly with the id of the manager's first call, so that it is routed to that call
+		c.Response = true
+		if rapid.IntRange(0, 3).Draw(t, "routed") != 0 {
+			c.MsgID = 1
+		}
+	}
 	md := findMethod(c.Method)
 	p, err := newPayload(md, c.Response)
 	if err != nil {
@@ -418,15 +428,18 @@ func genDecode(t *rapid.T, c *Case) {
 }
 
 func gen(t *rapid.T) Case {
-	mode := rapid.SampledFrom([]string{"roundtrip", "roundtrip", "roundtrip", "decode", "decode", "decode", "decode", "e2e-frame", "e2e-status"}).Draw(t, "mode")
+	mode := rapid.SampledFrom([]string{"roundtrip", "roundtrip", "roundtrip", "decode", "decode", "decode", "decode", "e2e-frame", "e2e-status", "e2e-client"}).Draw(t, "mode")
 	c := Case{Mode: mode}
 	switch mode {
 	case "roundtrip":
 		genRoundtripParts(t, &c)
-	case "decode", "e2e-frame":
+	case "decode", "e2e-frame", "e2e-client":
 		genDecode(t, &c)
 		if mode == "e2e-frame" {
 			c.Response = false
+		}
+		if mode == "e2e-client" {
+			c.ClientKind = rapid.SampledFrom(clientKinds).Draw(t, "clientKind")
 		}
 	case "e2e-status":
 		n := rapid.SampledFrom([]int{1, 2, 3, 3, 4, 6}).Draw(t, "steps")
@@ -480,6 +493,8 @@ func run(c Case) vt.Verdict {
 		return runE2EFrame(c)
 	case "e2e-status":
 		return runE2EStatus(c)
+	case "e2e-client":
+		return runE2EClient(c)
 	}
 	return vt.Verdict{OK: true, Inconclusive: true, Msg: "unknown mode"}
 }
@@ -646,6 +661,109 @@ func runE2EFrame(c Case) vt.Verdict {
 	return vt.Pass(c.Mutation != "noise" && c.Mutation != "valid", "mode=e2e-frame", "mutation="+c.Mutation)
 }
 
+var clientKinds = []string{"RPC", "QC", "QCCustom", "QCPerNode", "Async", "AsyncCustom", "Corr", "CorrCustom", "CorrStream", "Unicast", "Multicast"}
+
+// runE2EClient: the receiving process is a client. A raw grpc server (no gorums code on
+// its side of the wire) answers the first request of a fresh manager with the case's frame
+// and every later request with a well-formed reply. Whatever the frame is, the client
+// process must not crash or panic (the call may fail or be answered), and the node must
+// remain usable: a later RPC is answered.
+func runE2EClient(c Case) vt.Verdict {
+	cl := scen.NewCluster(1, 0)
+	defer cl.Shutdown()
+	lis := cl.Fab.Listen(scen.Addr(0))
+	var nreq int32
+	hostileSent := make(chan struct{})
+	frame := c.Frame
+	gs := grpc.NewServer(grpc.ForceServerCodec(rawCodec{}), grpc.UnknownServiceHandler(func(_ any, st grpc.ServerStream) error {
+		codec := gorums.NewCodec()
+		for {
+			var b []byte
+			if err := st.RecvMsg(&b); err != nil {
+				return err
+			}
+			req := gorums.VerifNewMessage(false)
+			if err := codec.Unmarshal(b, req); err != nil {
+				continue
+			}
+			if atomic.AddInt32(&nreq, 1) == 1 {
+				f := append([]byte(nil), frame...)
+				err := st.SendMsg(&f)
+				close(hostileSent)
+				if err != nil {
+					return err
+				}
+				continue
+			}
+			var tok uint64
+			if r, ok := req.Message.(*puppet.Req); ok {
+				tok = r.GetToken()
+			}
+			out, err := codec.Marshal(&gorums.Message{Metadata: &ordering.Metadata{MessageID: req.Metadata.GetMessageID(), Method: req.Metadata.GetMethod()},
+				Message: &puppet.Rep{Token: tok}})
+			if err != nil {
+				continue
+			}
+			if err := st.SendMsg(&out); err != nil {
+				return err
+			}
+		}
+	}))
+	go func() { _ = gs.Serve(lis) }()
+	defer gs.Stop()
+	client, err := scen.NewClient(cl, scen.MgrOpts{})
+	if err != nil {
+		return vt.Verdict{OK: true, Inconclusive: true, Msg: err.Error()}
+	}
+	defer client.Close(scen.B)
+	issue := func(call *scen.Call) (panicked any) {
+		done := make(chan any, 1)
+		go func() {
+			defer func() { done <- recover() }()
+			call.Issue()
+		}()
+		select {
+		case p := <-done:
+			if p != nil {
+				return p
+			}
+		case <-time.After(scen.B):
+			return nil
+		}
+		scen.Await(call.DoneCh(), 2*time.Second)
+		return nil
+	}
+	tok := scen.NewTokens(40)
+	spec := scen.CallSpec{Kind: c.ClientKind, Node: 0, Ctx: "deadline", DeadlineUs: 200000, Script: scen.QScript{Kind: "threshold", Q: 1}}
+	first := client.NewCall(0, tok, 1, spec)
+	if p := issue(first); p != nil {
+		return vt.Fail("C13/e2e-client/caller-panic/"+panicKey(p), "a %s call panicked in the caller's goroutine when the server answered with a frame (mutation %s, method %q): %v", c.ClientKind, c.Mutation, c.Method, p)
+	}
+	select {
+	case <-hostileSent:
+	case <-time.After(scen.B):
+		return vt.Verdict{OK: true, Inconclusive: true, Msg: "the request did not reach the raw server"}
+	}
+	first.Cancel()
+	// the node must remain usable (the stream may have to be re-created after a frame that does not decode)
+	var lastErr error
+	for i := 1; i <= 30; i++ {
+		probe := client.NewCall(i, tok+uint64(i), uint64(i+1), scen.CallSpec{Kind: "RPC", Node: 0, Ctx: "deadline", DeadlineUs: 500000})
+		if p := issue(probe); p != nil {
+			return vt.Fail("C13/e2e-client/caller-panic/"+panicKey(p), "an RPC after the hostile frame panicked: %v", p)
+		}
+		if probe.Err == nil {
+			if rep, ok := probe.Value.(*puppet.Rep); ok && rep.GetToken() == tok+uint64(i) {
+				return vt.Pass(c.Mutation != "noise", "mode=e2e-client", "mutation="+c.Mutation, "client-kind="+c.ClientKind, fmt.Sprintf("routed=%v", c.MsgID == 1))
+			}
+		}
+		lastErr = probe.Err
+		probe.Cancel()
+		time.Sleep(10 * time.Millisecond)
+	}
+	return vt.Fail("C13/e2e-client/client-dead", "after a frame from the server (mutation %s) 30 RPCs to the node failed, the last with: %v", c.Mutation, lastErr)
+}
+
 // runE2EStatus: a handler's error status reaches the caller with the same code and
 // message - for every call of a sequence of calls to one node through one manager
 // (a success after a failure arrives as a success, an empty message stays empty).
@@ -715,7 +833,7 @@ func max(a, b int) int {
 func TestProp(t *testing.T) {
 	vt.Main(t, vt.Spec[Case]{
 		ID:           "C13",
-		Rule:         "rapid-generated cases in four modes: (roundtrip) for every method registered in the test binary (puppet service with a message of every scalar kind, nested/repeated/map/oneof/enum/unknown fields, plus the repository's own test services) and both directions a reflectively generated payload and metadata (any message id, status with any code/text/Any details) must survive Marshal+Unmarshal with equal content and the right type; (decode) frames derived from valid ones by structure-aware mutation (truncation at boundaries, hostile/short/long length prefixes, swapped or spliced sections, method replaced by the name of every non-method registry entity / unknown / empty / long / non-UTF-8 names, byte flips) and plain noise must never panic; (e2e-frame) the same frames written raw to a live server's NodeStream must not panic its stream goroutine and a following probe must be answered; (e2e-status) 1-6 consecutive RPCs to one node through one manager whose handlers fail with generated codes 1-16 and messages (empty, multi-line, non-ASCII, random) or succeed (after and between failures): every status code and message must reach its caller unchanged and without details, and a success must arrive as a success. Non-trivial = payload with a populated non-scalar field or status with details (roundtrip), a frame that differs from a valid one but is not noise (decode/e2e-frame), every e2e-status case",
+		Rule:         "rapid-generated cases in five modes: (roundtrip) for every method registered in the test binary (puppet service with a message of every scalar kind, nested/repeated/map/oneof/enum/unknown fields, plus the repository's own test services) and both directions a reflectively generated payload and metadata (any message id, status with any code/text/Any details) must survive Marshal+Unmarshal with equal content and the right type; (decode) frames derived from valid ones by structure-aware mutation (truncation at boundaries, hostile/short/long length prefixes, swapped or spliced sections, method replaced by the name of every non-method registry entity / unknown / empty / long / non-UTF-8 names, byte flips) and plain noise must never panic; (e2e-frame) the same frames written raw to a live server's NodeStream must not panic its stream goroutine and a following probe must be answered; (e2e-client) a raw grpc server without gorums code answers the first request of a fresh manager (RPC, quorum, per-node, custom-type, async, correctable, stream, unicast or multicast call) with a generated response-direction frame (every mutation of the decode mode; message id that of the call in 3 of 4 cases) and every later request with a well-formed reply: the call may fail or succeed but nothing may panic or crash the client process, and a later RPC to the node must be answered; (e2e-status) 1-6 consecutive RPCs to one node through one manager whose handlers fail with generated codes 1-16 and messages (empty, multi-line, non-ASCII, random) or succeed (after and between failures): every status code and message must reach its caller unchanged and without details, and a success must arrive as a success. Non-trivial = payload with a populated non-scalar field or status with details (roundtrip), a frame that differs from a valid one but is not noise (decode/e2e-frame), every e2e-status case",
 		Gen:          gen,
 		Run:          run,
 		TrackCurrent: false,
